@@ -27,6 +27,7 @@ def wire_events(arg):
     seed, pw, lossy = arg[:3]
     via = arg[3] if len(arg) > 3 else "arg"
     chal0 = arg[4] if len(arg) > 4 else ()
+    flavour = arg[5] if len(arg) > 5 else None
     evs = []
     sess = None
     try:
@@ -35,7 +36,7 @@ def wire_events(arg):
             # a path that drops, duplicates and delays datagrams during the handshake: login messages are re-sent, and
             # late copies of earlier answers arrive while the client waits for the raw login reply
             relay = scen.Relay(seed, p_drop=0.25, p_dup=0.3, p_delay=0.25, max_delay=1800000, fault_from=0, fault_to=10 ** 13)
-        sess = scen.Session(runs.bdir(), seed=seed, raw=True, qtype=["NULL", "TXT", "CNAME"][seed % 3], password=pw,
+        sess = scen.Session(runs.bdir(flavour), seed=seed, raw=True, qtype=["NULL", "TXT", "CNAME"][seed % 3], password=pw,
                             tag="lg%d" % seed, relay=relay, pw_via=via, challenges=chal0)
         sess.handshake(limit=120_000_000)
         w = sess.w
@@ -144,6 +145,10 @@ def main(tier):
     prod = funcs.produce("drv_login", [[seed * 1000 + i, per if i else 60] for i in range(ns)])
     funcs.san_failures(chk, prod, "login")
     files = [p for p, n, rc, err in prod if n > 0]
+    # the same on a platform where plain char is unsigned (ARM / PowerPC Linux: -funsigned-char)
+    prod_u = funcs.produce("drv_login", [[seed * 1000 + 500 + i, per if i else 60] for i in range(4)], flavour="uchar")
+    funcs.san_failures(chk, prod_u, "login-uchar")
+    files += [p for p, n, rc, err in prod_u if n > 0]
     rng = random.Random(seed)
     pws = ["a", "s3cret-pw", "p" * 31, "q" * 32, "r" * 33 + "tail", "\xff\xfe\x80\x01 x", "Z" * 40]
     if tier != "quick":
@@ -159,6 +164,9 @@ def main(tier):
     # rand() returns
     edge = [0, 1, 2, 0x7fffffff, 0x7ffffffe, 0x7fffff00, 0x00ffffff, 0x7f000000, 0x0000ffff, 0x00010000, 255, 256]
     wires += vcheck.parallel(wire_events, [(seed * 50 + 6000 + i, pws[i % len(pws)], False, "arg", [c, c]) for i, c in enumerate(edge)])
+    # ... and real sessions of programs built for an unsigned-char platform (the wire values must be the same)
+    wires += vcheck.parallel(wire_events, [(seed * 50 + 7000 + i, pw, False, ["arg", "env"][i % 2], [[0, 0], [0x7fffffff] * 2, ()][i % 3], "uchar")
+                                           for i, pw in enumerate(pws)])
     wires += vcheck.parallel(reuse_events, [(seed * 50 + 3000 + i, pw) for i, pw in enumerate(pws[:4 if tier == "quick" else 20])])
     wpath = os.path.join(vcheck.scratch(), "wire-%d.ndjson" % os.getpid())
     nw = 0
